@@ -67,8 +67,8 @@ def field_read_seeds(field):
 def run(R):
     F = R.F
     # (1) sinks
-    R.who_may_call("C03.sinks", [PUT], STORE_FNS, floor=4, descr="put_local_record is called only from the four typed store functions")
-    R.who_may_call("C03.sinks.callers", STORE_FNS, [PV + "validate_and_store_record", PV + "store_replicated_in_record"], floor=8,
+    R.who_may_call("C03.sinks", [PUT], STORE_FNS, floor=2, descr="put_local_record is called only from the four typed store functions")
+    R.who_may_call("C03.sinks.callers", STORE_FNS, [PV + "validate_and_store_record", PV + "store_replicated_in_record"], floor=4,
                    descr="the typed store functions are called only from the two record entry points")
 
     # (2) per-arm gates
